@@ -160,14 +160,14 @@ def check_C06(chk, tier, seed):
             if ex[0] == "read":
                 chk.violation("reading concatenated frames from a segmented stream did not yield exactly those messages with exactly their octets consumed per call"
                               + (" (the reader never completed)" if "HANG" in im else ""),
-                              dict(case=short(c, 3000), impl=short(im, 3000), expected=short(ex[1], 3000)))
+                              dict(case=c, impl=short(im, 3000), expected=short(ex[1], 3000)))
             else:
                 chk.violation("writing a message to a stream that accepts octets in partial amounts did not put exactly its encoding on the stream",
-                              dict(case=short(c, 3000), impl=short(im, 3000), expected=short(ex[1], 3000)))
+                              dict(case=c, impl=short(im, 3000), expected=short(ex[1], 3000)))
         elif im != mo:
-            chk.corr_break("observation differs from the model", dict(case=short(c, 3000), impl=short(im, 2000), model=short(mo, 2000)))
+            chk.corr_break("observation differs from the model", dict(case=c, impl=short(im, 2000), model=short(mo, 2000)))
         if i % max(1, len(cases) // 6) == 0:
-            chk.sample(dict(case=short(c, 200), impl=short(im, 200), P=ok))
+            chk.sample(dict(case=c, impl=short(im, 200), P=ok))
     chk.rule = (f"{nexh} short streams (1-3 frames, <= 96 octets): every pair of cut positions exhaustively; {nrand} random streams of 1-4 frames: one-octet dribble, "
                 "dribble with Pending after every octet, random chunkings with Pending runs, trailing partial frame, error instead of EOF; one/two Pending entries at "
                 "every position of a dribbled 2-frame stream; octets consumed after each call compared; write side: one-octet accepts, Pending before every accept, "
@@ -223,24 +223,24 @@ def check_C07(chk, tier, seed):
         if "PANIC" in im or im.startswith("CRASH") or "HANG" in im or len(t) < 3:
             ok = False
             chk.violation(f"the stream reader did not return an error for an announced length of {L}: " + short(im, 200),
-                          dict(case=short(c, 2000), announced=L, impl=short(im, 600)))
+                          dict(case=c, announced=L, impl=short(im, 600)))
         else:
             consumed = int(t[-1][1:])
             if L is not None:
                 if L > (1 << 20) and not (res == "ERR" and consumed == 4):
                     ok = False
                     chk.violation(f"a frame announcing {L} octets (above the 1 MiB limit) was not refused after consuming only its 4-octet prefix (result {res}, {consumed} octets taken)",
-                                  dict(case=short(c, 2000), announced=L, impl=short(im, 600)))
+                                  dict(case=c, announced=L, impl=short(im, 600)))
                 elif L < 20 and res not in ("ERR", "EOF"):
                     ok = False
-                    chk.violation(f"a frame announcing {L} octets (less than a Diameter header) was not refused with an error", dict(case=short(c, 2000), announced=L, impl=short(im, 600)))
+                    chk.violation(f"a frame announcing {L} octets (less than a Diameter header) was not refused with an error", dict(case=c, announced=L, impl=short(im, 600)))
                 elif consumed > max(L, 4):
                     ok = False
-                    chk.violation(f"{consumed} octets were taken from the stream for an announced length of {L}", dict(case=short(c, 2000), announced=L, impl=short(im, 600)))
+                    chk.violation(f"{consumed} octets were taken from the stream for an announced length of {L}", dict(case=c, announced=L, impl=short(im, 600)))
         if ok and im != mo:
-            chk.corr_break("observation differs from the model", dict(case=short(c, 2000), announced=L, impl=short(im, 1000), model=short(mo, 1000)))
+            chk.corr_break("observation differs from the model", dict(case=c, announced=L, impl=short(im, 1000), model=short(mo, 1000)))
         if i % max(1, len(cases) // 6) == 0:
-            chk.sample(dict(case=short(c, 120), announced=L, impl=short(im, 120), P=ok))
+            chk.sample(dict(case=c, announced=L, impl=short(im, 120), P=ok))
     chk.exhaustive = True
     chk.rule = ("every announced length in 0..64, within 16 of 2^20 and of 2^24-1, every power of two, random lengths; each followed by no data, fewer octets than "
                 "announced, exactly, more (lengths <= 8 KiB and 2^20-1, 2^20) or 4 KiB of data; whole-buffer and chunked delivery; octets taken from the reader counted")
@@ -328,11 +328,11 @@ def check_C08(chk, tier, seed):
         if not ok:
             chk.violation("the connection loop did not call the handler exactly once per request in order and write exactly its answers (or did not stop at the first "
                           "malformed frame / handler failure)" + (": the connection task never completed" if "HANG" in im else "") + (": it panicked" if "panicked" in im else ""),
-                          dict(case=short(c, 4000), scenario=kind, impl=short(im, 3000), expected=short(exp, 3000)))
+                          dict(case=c, scenario=kind, impl=short(im, 3000), expected=short(exp, 3000)))
         elif im != mo:
-            chk.corr_break("observation differs from the model", dict(case=short(c, 4000), impl=short(im, 2000), model=short(mo, 2000)))
+            chk.corr_break("observation differs from the model", dict(case=c, impl=short(im, 2000), model=short(mo, 2000)))
         if i % max(1, len(sc) // 6) == 0:
-            chk.sample(dict(case=short(c, 200), impl=short(im, 200), P=ok))
+            chk.sample(dict(case=c, impl=short(im, 200), P=ok))
     chk.rule = ("1..8 requests (random AVP content) with handler answers of random size; delivery: one chunk (pipelined), one chunk per frame, one-octet dribble, random "
                 "chunkings with Pending; writer: unconstrained, one octet per poll, random accept sizes with Pending; in 3/5 of the scenarios one malformed frame "
                 "(AVP length below its header, unknown command, unknown AVP, hostile announced length), one failing handler call or one unencodable answer at a random "
@@ -406,11 +406,11 @@ def check_C09(chk, tier, seed):
         if not ok:
             chk.violation("after a connection loss the task did not terminate cleanly having called the handler for exactly the requests that had arrived completely "
                           "and written exactly (a prefix of) their answers" + (": it never completed" if "HANG" in im else "") + (": it panicked" if "panicked" in im else ""),
-                          dict(case=short(c, 4000), kind=kind, impl=short(im, 3000), expected=short(exp, 3000)))
+                          dict(case=c, kind=kind, impl=short(im, 3000), expected=short(exp, 3000)))
         elif im != mo:
-            chk.corr_break("observation differs from the model", dict(case=short(c, 4000), impl=short(im, 2000), model=short(mo, 2000)))
+            chk.corr_break("observation differs from the model", dict(case=c, impl=short(im, 2000), model=short(mo, 2000)))
         if i % max(1, len(cases) // 6) == 0:
-            chk.sample(dict(case=short(c, 200), impl=short(im, 200), P=ok))
+            chk.sample(dict(case=c, impl=short(im, 200), P=ok))
     chk.exhaustive = True
     chk.rule = (f"{nstreams} request streams of 2-4 requests: EVERY read-side cut offset p in [0, N] (EOF and connection error; whole-buffer and one-octet delivery) and "
                 "EVERY write-side failure offset q in [0, total answer length] (one octet per poll, and answer-sized accepts; both deliveries); completion under paused "
